@@ -21,7 +21,6 @@
 package sim
 
 import (
-	"fmt"
 	"runtime"
 	"sort"
 	"strings"
@@ -497,9 +496,11 @@ func (s *Sched) drain() (inPlace bool) {
 }
 
 //go:norace
-func (s *Sched) logf(format string, a ...any) {
+func (s *Sched) logline(line string) {
+	// (no fmt here: fmt's printer pool would be shared with task goroutines without the
+	// happens-before edges that RaceDisable hides, a false race report)
 	if s.opt.KeepLog && len(s.res.Log) < 20000 {
-		s.res.Log = append(s.res.Log, fmt.Sprintf(format, a...))
+		s.res.Log = append(s.res.Log, line)
 	}
 }
 
@@ -567,7 +568,7 @@ func (s *Sched) loop() {
 			s.res.Switches++
 		}
 		if s.opt.KeepLog {
-			s.logf("%d %s %s %s run=%d", s.res.Steps, pick.id, k, site, len(run))
+			s.logline(itoa(s.res.Steps) + " " + pick.id + " " + k.String() + " " + site + " run=" + itoa(len(run)))
 		}
 		g := grant{free: free}
 		if pick.node != s.lastNode {
@@ -684,9 +685,9 @@ func (s *Sched) describeStuck() string {
 			continue
 		}
 		if l.pending != nil {
-			fmt.Fprintf(&b, "[%s %s %s] ", l.id, l.pending.kind, l.pending.site)
+			b.WriteString("[" + l.id + " " + l.pending.kind.String() + " " + l.pending.site + "] ")
 		} else {
-			fmt.Fprintf(&b, "[%s blocked-outside-scheduler] ", l.id)
+			b.WriteString("[" + l.id + " blocked-outside-scheduler] ")
 		}
 	}
 	return b.String()
